@@ -3,13 +3,14 @@
      mptcore/event/{command_get,command_set,command_reserve,command_traits,dispatch_set,dispatch_emit,
                     dispatch_hash,dispatch_finit}.c, mptcore/misc/hash_djb2.c
   Mirrors the C control flow.  The command table is the element list `[0, _used / sizeof(command))` of the
-  array buffer (`slots`), its capacity in bytes (`cap`) and whether the buffer carries the command traits
-  (`typed`, set by mpt_command_set; a table created by mpt_command_reserve is a raw buffer).
+  array buffer (`slots`) and its capacity in bytes (`cap`); the buffer always carries the command traits and the
+  NoCopy flag (mpt_command_set and, since repair 4b10f2d, mpt_command_reserve create it that way).
   Handlers are harness functions: `cmd = some .user` with `arg` = registration number; invoking one appends
   to the log and answers what the oracle `HRes` of the current operation says.  `.logReply` is the library's
   placeholder handler of a freshly reserved slot.
-  Not modelled: the fallback reply context `_ctx` (always NULL here), the built-in `unknownEvent` fallback
-  (the harness installs its own or none), fragmented messages, allocation failure, mpt++/event.cpp.
+  Also modelled: the built-in `unknownEvent` fallback of dispatch_finit.c, release of the table through the
+  content traits (command_traits.c), and `set_default`/`set_error` of the C++ class in mpt++/event.cpp.
+  Not modelled: the fallback reply context `_ctx` (always NULL here), fragmented messages, allocation failure.
 -/
 import MptModel.Spec.Dispatch
 namespace Mpt.Dispatch
@@ -29,7 +30,6 @@ structure Slot where
 structure Table where
   slots : List Slot
   cap   : Nat
-  typed : Bool
   deriving DecidableEq, Repr, Inhabited
 
 /-- `struct dispatch` (without `_ctx`) -/
@@ -37,6 +37,7 @@ structure Disp where
   tab  : Option Table     -- `_d._buf`
   dflt : Id               -- `_def`
   err  : Option Nat       -- `_err`: harness fallback with this registration number, or none
+  bi   : Bool             -- `_err` is the library's `unknownEvent` (only with `err = none`)
   deriving DecidableEq, Repr, Inhabited
 
 def Slot.live (s : Slot) : Bool := s.cmd.isSome
@@ -47,7 +48,7 @@ def slotSize : Nat := 24
 def allocSize (len : Nat) : Nat := ((len + 64 - 1) / 128 + 1) * 128 - 64
 /-- capacity after `detach(buf, want)` of an unshared buffer -/
 def detachCap (t : Table) (want : Nat) : Nat :=
-  let want := if t.typed ∧ want % slotSize ≠ 0 then want + (slotSize - want % slotSize) else want
+  let want := if want % slotSize ≠ 0 then want + (slotSize - want % slotSize) else want
   if want ≤ t.cap then t.cap else allocSize want
 
 /- ---------- command_get.c ---------- -/
@@ -92,7 +93,7 @@ def commandSet (tab : Option Table) (id : Id) (cmd : Option Hnd) (arg : Nat) : O
   | some _, none => (tab, Err.BadOperation.code, [])
   | none, none =>
     -- new typed buffer (BufferNoCopy, command traits) with one element
-    (some { slots := [⟨id, cmd, arg⟩], cap := allocSize slotSize, typed := true }, 1, [])
+    (some { slots := [⟨id, cmd, arg⟩], cap := allocSize slotSize }, 1, [])
   | none, some t =>
     match (if t.slots.length ≠ 0 then commandEmpty t.slots else none) with
     | some i =>
@@ -133,7 +134,8 @@ def errFin (err : Option Nat) : List LogE :=
 /-- `mpt_dispatch_fini(disp)` -/
 def dispatchFini (d : Disp) : Disp × List LogE :=
   let c := commandClear d.tab
-  ({ tab := none, dflt := 0, err := none }, c.2 ++ errFin d.err)
+  -- the built-in fallback is "finalised" too (`unknownEvent(arg, 0)` does nothing)
+  ({ tab := none, dflt := 0, err := none, bi := false }, c.2 ++ errFin d.err)
 
 /- ---------- handler invocation ---------- -/
 /-- result of `cmd(arg, ev)`: log, event id afterwards, returned value; `none` = undefined behaviour
@@ -150,27 +152,43 @@ structure Ev where
   msg : Option (List Byte)
   deriving Repr, Inhabited
 
+/-- `mpt_dispatch_emit` from "modify default command" on: the handler answered `state >= 0` and left `evid'` in the event -/
+def emitFlags (d : Disp) (state : Int) (evid' : Id) (log : List LogE) : Disp × Out :=
+  let f := state.toNat
+  -- modify default command
+  let d1 := if hasDefault f then { d with dflt := evid' } else d
+  let f1 := if hasDefault f then clrDefault f else f
+  -- propagate default call availability
+  let f2 := if d1.dflt != 0 then setDefault f1 else f1
+  (d1, ⟨.val (Int.ofNat f2), log⟩)
+
+/-- `unknownEvent(arg, ev)` of dispatch_finit.c with an event: the returned flags and the event id afterwards -/
+def unknownEvent (evid : Id) (msg : Option (List Byte)) : Int × Id :=
+  if evid != 0 then (3, 0)                       -- bad event id: `ev->id = 0`, Default | Fail
+  else match msg with
+    | none => (3, evid)                          -- bad default event: Default | Fail
+    | some [] => (0, evid)                       -- empty message
+    | some (_ :: _) => (2, evid)                 -- bad message type: Fail
+
 /-- the tail of `mpt_dispatch_emit` once the command element (or none) is resolved -/
-def emitResolved (d : Disp) (cmd : Option (Nat × Slot)) (evid : Id) (res : HRes) : Disp × Out :=
+def emitResolved (d : Disp) (cmd : Option (Nat × Slot)) (evid : Id) (msg : Option (List Byte)) (res : HRes) : Disp × Out :=
   let tgt : Option (Hnd × Nat) :=
     match cmd with
     | some (_, s) => s.cmd.map fun h => (h, s.arg)
     | none => d.err.map fun r => (Hnd.user, r)
   match tgt with
-  | none => (d, ⟨.val Err.BadArgument.code, []⟩)          -- "unknown command"
+  | none =>
+    if d.bi then
+      -- default handler for unknown ids
+      let a := unknownEvent evid msg
+      emitFlags d a.1 a.2 []
+    else (d, ⟨.val Err.BadArgument.code, []⟩)          -- "unknown command"
   | some (h, arg) =>
     match invoke h arg evid res with
     | none => (d, ⟨.fault, []⟩)
     | some (log, evid', state) =>
       if state < 0 then (d, ⟨.val state, log⟩)              -- bad execution of command
-      else
-        let f := state.toNat
-        -- modify default command
-        let d1 := if hasDefault f then { d with dflt := evid' } else d
-        let f1 := if hasDefault f then clrDefault f else f
-        -- propagate default call availability
-        let f2 := if d1.dflt != 0 then setDefault f1 else f1
-        (d1, ⟨.val (Int.ofNat f2), log⟩)
+      else emitFlags d state evid' log
 
 /-- `mpt_dispatch_emit(disp, ev)` -/
 def dispatchEmit (d : Disp) (ev : Option Ev) (res : HRes) : Disp × Out :=
@@ -180,14 +198,14 @@ def dispatchEmit (d : Disp) (ev : Option Ev) (res : HRes) : Disp × Out :=
     if d.dflt = 0 then (d, ⟨.val 0, []⟩)
     else match commandGet d.tab d.dflt with
       | none => ({ d with dflt := 0 }, ⟨.val Err.BadValue.code, []⟩)   -- bad default command
-      | some c => emitResolved d (some c) d.dflt res
+      | some c => emitResolved d (some c) d.dflt none res
   | some e =>
     match e.msg with
-    | none => emitResolved d (commandGet d.tab e.id) e.id res
+    | none => emitResolved d (commandGet d.tab e.id) e.id none res
     | some bytes =>
       match bytes with
       | [] => (d, ⟨.val (-2), []⟩)
-      | b :: _ => emitResolved d (commandGet d.tab b.toUInt64) b.toUInt64 res
+      | b :: _ => emitResolved d (commandGet d.tab b.toUInt64) b.toUInt64 (some bytes) res
 
 /- ---------- hash_djb2.c ---------- -/
 /-- `mpt_hash_djb2(data, len)` with `len >= 0`: the `while (len--)` loop -/
@@ -284,7 +302,9 @@ def dispatchHash (d : Disp) (msg : List Byte) (res : HRes) : Out :=
         match invoke .user r id res with
         | none => ⟨.fault, []⟩
         | some (log, _, state) => ⟨.val state, log⟩
-      | none => ⟨.val failDefault, []⟩                     -- unable to find command
+      | none =>
+        if d.bi then ⟨.val (unknownEvent id (some msg)).1, []⟩
+        else ⟨.val failDefault, []⟩                         -- unable to find command
 
 /- ---------- command_reserve.c ---------- -/
 /-- the `switch (max)` table, capped at INTPTR_MAX; 0 = refuse -/
@@ -350,14 +370,15 @@ def lowFreeId (slots : List Slot) (max : Nat) : Option Nat :=
 
 /-- `mpt_command_reserve(arr, max)`: the table afterwards and the index of the reserved element
     (its id is `slots[idx].id`, handler `log_reply`) or `none` = NULL.
-    Models the code with the wrap-around repair (`mid >= max` instead of `++mid > max`). -/
+    Models the code with the repairs 1ea9e6d (`mid >= max` instead of `++mid > max`) and 4b10f2d (the same typed
+    buffer as `mpt_command_set`: created with the command traits, extended with `mpt_array_insert`). -/
 def commandReserve (tab : Option Table) (w : Nat) : Option Table × Option Nat :=
   let max := widthMax w
   if max = 0 then (tab, none)
   else match tab with
   | none =>
     -- first use: eight zeroed elements, the first one gets id 1
-    (some { slots := ⟨1, some .logReply, 1⟩ :: List.replicate 7 ⟨0, none, 0⟩, cap := allocSize (8 * slotSize), typed := false },
+    (some { slots := ⟨1, some .logReply, 1⟩ :: List.replicate 7 ⟨0, none, 0⟩, cap := allocSize (8 * slotSize) },
      some 0)
   | some t =>
     let st := compactLoop ⟨t.slots, none, 0, 0⟩ 0 t.slots.length
@@ -369,12 +390,10 @@ def commandReserve (tab : Option Table) (w : Nat) : Option Table × Option Nat :
     match mid with
     | none => (some t1, none)                       -- no unique message id available
     | some m =>
-      -- add command slot: mpt_array_append refuses a typed buffer
-      if t.typed then (some t1, none)
-      else
-        let used := slots.length * slotSize
-        let cap := if slotSize > t.cap - used then detachCap t1 (used + slotSize) else t.cap
-        (some { t1 with slots := slots ++ [⟨UInt64.ofNat m, some .logReply, m⟩], cap := cap }, some slots.length)
+      -- add command slot: mpt_array_insert(arr, used, sizeof(*cmd))
+      let used := slots.length * slotSize
+      let cap := if used + slotSize ≤ t.cap then t.cap else detachCap t1 (used + slotSize)
+      (some { t1 with slots := slots ++ [⟨UInt64.ofNat m, some .logReply, m⟩], cap := cap }, some slots.length)
 
 /-- what the caller does with a reserved element: "set control handler of returned element to activate" -/
 def activate (tab : Option Table) (idx : Nat) (arg : Nat) : Option Table :=
@@ -385,6 +404,31 @@ def activate (tab : Option Table) (idx : Nat) (arg : Nat) : Option Table :=
     | some s => some { t with slots := t.slots.set idx { s with cmd := some .user, arg := arg } }
     | none => some t
 
+/- ---------- command_traits.c, mpt++/event.cpp ---------- -/
+/-- `mpt_array_clone(&disp->_d, 0)`: the buffer is released; its content traits (`_command_fini`) finalise every
+    element of `[0, _used)` that has a handler -/
+def arrayDrop (tab : Option Table) : List LogE :=
+  match tab with
+  | none => []
+  | some t => (t.slots.map finalise).flatten
+
+/-- `_command_init(ptr, src)` with `src` = the table element that holds registration `r`: copying an active command
+    is refused (BadOperation); the code for "no such element" is 0 (an empty source is copied as zeros) -/
+def traitsCopy (tab : Option Table) (r : Nat) : Int :=
+  match tab with
+  | none => 0
+  | some t => if t.slots.any (fun s => s.live && s.arg == r) then Err.BadOperation.code else 0
+
+/-- C++ `dispatch::set_default(id)` (after repair: the id must name a registered handler) -/
+def setDefaultX (d : Disp) (id : Id) : Disp × Bool :=
+  match commandGet d.tab id with
+  | some _ => ({ d with dflt := id }, true)
+  | none => (d, false)
+
+/-- C++ `dispatch::set_error(cmd, arg)`: the old fallback is finalised, the new one installed -/
+def setErrorX (d : Disp) (r : Nat) : Disp × List LogE :=
+  ({ d with err := some r, bi := false }, errFin d.err)
+
 /- ---------- histories ---------- -/
 /-- dispatcher plus the harness' registration counter -/
 structure St where
@@ -392,9 +436,10 @@ structure St where
   next : Reg
   deriving Repr, Inhabited
 
-/-- `mpt_dispatch_init`, then the harness installs its fallback (registration 0) or none -/
-def St.init (fallback : Bool) : St :=
-  { d := { tab := none, dflt := 0, err := if fallback then some 0 else none }, next := 1 }
+/-- `mpt_dispatch_init` (fallback = the built-in `unknownEvent`); the harness may install its own fallback
+    (registration 0) or remove it -/
+def St.init (start : Start) : St :=
+  { d := { tab := none, dflt := 0, err := if start = .fb then some 0 else none, bi := decide (start = .builtin) }, next := 1 }
 
 def step (s : St) (op : Op) : St × Out :=
   match op with
@@ -432,6 +477,14 @@ def step (s : St) (op : Op) : St × Out :=
   | .fini =>
     let r := dispatchFini s.d
     ({ s with d := r.1 }, ⟨.val 0, r.2⟩)
+  | .drop => ({ s with d := { s.d with tab := none } }, ⟨.val 0, arrayDrop s.d.tab⟩)
+  | .tcopy r => (s, ⟨.val (traitsCopy s.d.tab r), []⟩)
+  | .setDefault id =>
+    let r := setDefaultX s.d id
+    ({ s with d := r.1 }, ⟨.val (if r.2 then 1 else -1), []⟩)
+  | .setError =>
+    let r := setErrorX s.d s.next
+    ({ d := r.1, next := s.next + 1 }, ⟨.val 0, r.2⟩)
 
 /-- state after a history and the outcomes it produced -/
 def runFrom (s : St) : List Op → St × List (Op × Out)
@@ -441,7 +494,7 @@ def runFrom (s : St) : List Op → St × List (Op × Out)
     let q := runFrom r.1 rest
     (q.1, (op, r.2) :: q.2)
 
-def run (fallback : Bool) (ops : List Op) : St × List (Op × Out) := runFrom (St.init fallback) ops
+def run (start : Start) (ops : List Op) : St × List (Op × Out) := runFrom (St.init start) ops
 
 /-- live registrations of the table: `(id, registration)` of every active element, in table order -/
 def liveList (tab : Option Table) : List (Id × Reg) :=
